@@ -174,13 +174,13 @@ Proof.
   intros (_ & Pe & _) x Hx. destruct (in_nth_lt _ _ Hx) as [i [Hi <-]].
   pose proof dims_sN as (_ & _ & _ & _ & _ & _ & _ & _ & _ & He). apply Pe. lia.
 Qed.
-Lemma in_le_within : BndDE S n m sN -> forall x, In x (le sN) -> eq_min S <= x <= eq_max S.
+Lemma in_le_within : BndDE S n m sN -> forall x, In x (le sN) -> slo S <= x <= shi S.
 Proof.
   intros (_ & Be) x Hx. destruct (in_nth_lt _ _ Hx) as [i [Hi <-]].
   pose proof dims_sN as (_ & _ & _ & _ & _ & _ & _ & _ & _ & He). apply Be. lia.
 Qed.
 
-Lemma pos_sN : SettingsOk S -> Pos n m sN.
+Lemma pos_sN : SettingsPos S -> Pos n m sN.
 Proof.
   intros HS.
   destruct (ruiz_ind S n m (Pos n m)
@@ -188,7 +188,7 @@ Proof.
   exact H.
 Qed.
 
-Lemma positive_final : SettingsOk S ->
+Lemma positive_final : SettingsPos S ->
   let r := setup OpsR S cs P q A b in
   (forall j, (j < n)%nat -> 0 < nthR (ed (peq r)) j /\ nthR (edinv (peq r)) j * nthR (ed (peq r)) j = 1) /\
   (forall i, (i < m)%nat -> 0 < nthR (ee (peq r)) i /\ nthR (eeinv (peq r)) i * nthR (ee (peq r)) i = 1) /\
@@ -212,9 +212,9 @@ Proof.
     repeat split; intros; rewrite ?nth_ones by assumption; lra.
 Qed.
 
-Lemma within_e_final : SettingsOk S -> eq_enable S = true -> BndDE S n m sN ->
+Lemma within_e_final : SettingsPos S -> eq_enable S = true -> BndDE S n m sN ->
   forall i, (i < m)%nat ->
-    within (eq_min S) (eq_max S) (nth i (ee (peq (setup OpsR S cs P q A b))) 0).
+    within (slo S) (shi S) (nth i (ee (peq (setup OpsR S cs P q A b))) 0).
 Proof.
   intros HS Hen HB i Hi. pose proof (pos_sN HS) as HP.
   destruct (final_e_cases i Hi Hen HP) as [->|[sl [Hne [Hin ->]]]].
@@ -222,14 +222,14 @@ Proof.
   - apply mean_bounds; [exact Hne|]. intros v Hv. apply (in_le_within HB). apply Hin. exact Hv.
 Qed.
 
-Lemma bounds_final : SettingsOk S -> OneInRange S ->
+Lemma bounds_final : SettingsPos S -> OneInRangeGen S ->
   let r := setup OpsR S cs P q A b in
-  (forall j, (j < n)%nat -> within (eq_min S) (eq_max S) (nthR (ed (peq r)) j)) /\
-  (forall i, (i < m)%nat -> within (eq_min S) (eq_max S) (nthR (ee (peq r)) i)) /\
-  within (eq_min S) (eq_max S) (ec (peq r)).
+  (forall j, (j < n)%nat -> within (slo S) (shi S) (nthR (ed (peq r)) j)) /\
+  (forall i, (i < m)%nat -> within (slo S) (shi S) (nthR (ee (peq r)) i)) /\
+  within (slo S) (shi S) (ec (peq r)).
 Proof.
   intros HS H1. cbv zeta. unfold nthR. destruct (eq_enable S) eqn:Hen.
-  - set (Inv := fun s : lstateR => Pos n m s /\ BndDE S n m s /\ within (eq_min S) (eq_max S) (lc s)).
+  - set (Inv := fun s : lstateR => Pos n m s /\ BndDE S n m s /\ within (slo S) (shi S) (lc s)).
     assert (I0 : Inv s0).
     { split; [apply pos_s0|]. destruct H1 as [Ha Hb].
       unfold BndDE, s0, within. cbn [ld le lc].
@@ -249,15 +249,15 @@ Proof.
     unfold within. repeat split; intros; rewrite ?nth_ones by assumption; lra.
 Qed.
 
-Lemma bounds_iter_final : SettingsOk S -> eq_enable S = true -> (1 <= eq_max_iter S)%nat ->
+Lemma bounds_iter_final : SettingsPos S -> eq_enable S = true -> (1 <= eq_max_iter S)%nat ->
   let r := setup OpsR S cs P q A b in
-  (forall j, (j < n)%nat -> within (eq_min S) (eq_max S) (nthR (ed (peq r)) j)) /\
-  (forall i, (i < m)%nat -> within (eq_min S) (eq_max S) (nthR (ee (peq r)) i)) /\
-  (within (eq_min S) (eq_max S) (ec (peq r)) \/ ec (peq r) = 1).
+  (forall j, (j < n)%nat -> within (slo S) (shi S) (nthR (ed (peq r)) j)) /\
+  (forall i, (i < m)%nat -> within (slo S) (shi S) (nthR (ee (peq r)) i)) /\
+  (within (slo S) (shi S) (ec (peq r)) \/ ec (peq r) = 1).
 Proof.
   intros HS Hen Hit. cbv zeta. unfold nthR.
   set (Inv := fun s : lstateR => Pos n m s /\ BndDE S n m s /\
-                                 (within (eq_min S) (eq_max S) (lc s) \/ lc s = 1)).
+                                 (within (slo S) (shi S) (lc s) \/ lc s = 1)).
   assert (Istep : forall s, Dims n m s -> Inv s -> Inv (ruiz_step OpsR S s)).
   { intros s HD (HP & HB & HC). destruct (pos_step S n m s HS HD HP) as (HP' & HB' & HC').
     split; [exact HP'|]. split; [exact HB'|]. destruct HC' as [HC'|HC']; [left; exact HC'|].
@@ -314,7 +314,7 @@ Proof.
 Qed.
 
 (** *** 4. uniform over non-scalar cones *)
-Lemma uniform_final : SettingsOk S -> eq_enable S = true ->
+Lemma uniform_final : SettingsPos S -> eq_enable S = true ->
   forall k off nn, In (k, off, nn) (cone_ranges 0 cs) -> scalar_kind k = false ->
     (off + nn <= m)%nat ->
     exists mu, 0 < mu /\
@@ -353,13 +353,20 @@ Lemma equil_exact_ok : stmt_equil_exact.
 Proof. intros S cs P q A b WF. apply exact_final. exact WF. Qed.
 
 Lemma equil_positive_ok : stmt_equil_positive.
-Proof. intros S cs P q A b HS WF. apply positive_final; assumption. Qed.
+Proof. intros S cs P q A b HS WF. apply positive_final; [assumption | apply settings_ok_pos; assumption]. Qed.
 
 Lemma equil_bounds_ok : stmt_equil_bounds.
-Proof. intros S cs P q A b HS H1 WF. apply bounds_final; assumption. Qed.
+Proof.
+  intros S cs P q A b HS H1 WF. rewrite <- (settings_ok_lo S HS), <- (settings_ok_hi S HS).
+  apply bounds_final; [assumption | apply settings_ok_pos; assumption |].
+  unfold OneInRangeGen. rewrite (settings_ok_lo S HS), (settings_ok_hi S HS). exact H1.
+Qed.
 
 Lemma equil_bounds_iter_ok : stmt_equil_bounds_iter.
-Proof. intros S cs P q A b HS Hen Hit WF. apply bounds_iter_final; assumption. Qed.
+Proof.
+  intros S cs P q A b HS Hen Hit WF. rewrite <- (settings_ok_lo S HS), <- (settings_ok_hi S HS).
+  apply bounds_iter_final; try assumption. apply settings_ok_pos; assumption.
+Qed.
 
 Lemma zero_col_unscaled_ok : stmt_zero_col_unscaled.
 Proof. intros S cs P q A b HS H1 WF r j Hj Z1 Z2 Z3. apply zero_col_final; assumption. Qed.
@@ -373,7 +380,7 @@ Qed.
 Lemma cone_uniform_ok : stmt_cone_uniform.
 Proof.
   intros S cs P q A b HS Hen WF r k off nn Hin Hk Hle.
-  apply (uniform_final S cs P q A b WF HS Hen k off nn); assumption.
+  apply (uniform_final S cs P q A b WF (settings_ok_pos S HS) Hen k off nn); assumption.
 Qed.
 
 (** the literal bound statement fails for min > 1 *)
